@@ -5,6 +5,7 @@ import OpusProofs.SilkStereoAgree
 import OpusProofs.SilkStereoSym
 import OpusProofs.SilkStereoLoops
 import OpusProofs.SilkStereoEnc
+import OpusProofs.SilkStereoEncInv
 /-
   OpusProps.C18Stereo — property C18 (SILK side information dequantises to stable, in-range parameters), slice Stereo:
   the mid/side predictor side information (silk/stereo_quant_pred.c, stereo_encode_pred.c, stereo_decode_pred.c).
@@ -174,6 +175,18 @@ theorem encoder_pred_in_domain (x : LrIn) (lp hp : FindIn) :
 example : (findPredictor 1000000 0 1000000 0 (-3000000) 0 0 655).pred = -16384 ∧
     (lrPreds { smth := 8000, widthPrev := 8000, totalRate := 20000, fsKHz := 16, is10ms := false, act := 200, toMono := false }
       (-16384) 3000 5000 9000).q0 = -8026 := by decide +kernel
+
+/-- STATE INVARIANT AND NOMINAL BOUND.  With `state->smth_width_Q14` in `[0, 2^14]` on entry (0 after reset) and
+    `prev_speech_act_Q8` in `[0, 255]`, `silk_stereo_LR_to_MS` leaves `smth_width_Q14` in `[0, 2^14]` again (whatever the
+    signals, rates and the other state fields), and the pair handed to `silk_stereo_quant_pred` lies in `[-2^14, 2^14]`. -/
+theorem encoder_width_invariant (x : LrIn) (lp hp : FindIn) (hs : 0 ≤ x.smth ∧ x.smth ≤ 16384) (ha : 0 ≤ x.act ∧ x.act ≤ 255) :
+    (0 ≤ (lrToMs x lp hp).smth ∧ (lrToMs x lp hp).smth ≤ 16384) ∧
+    (-16384 ≤ (lrToMs x lp hp).q0 ∧ (lrToMs x lp hp).q0 ≤ 16384) ∧
+    (-16384 ≤ (lrToMs x lp hp).q1 ∧ (lrToMs x lp hp).q1 ≤ 16384) :=
+  OpusProofs.SilkStereoEncInv.lrToMs_nominal x lp hp hs ha
+
+example : (lrPreds { smth := 16384, widthPrev := 16384, totalRate := 64000, fsKHz := 16, is10ms := false, act := 255, toMono := false }
+    16384 100 (-16384) 100).q0 = 16384 := by decide +kernel
 
 /-- COMPOSED: EVERY call of `silk_stereo_quant_pred` the encoder makes (any signals, state, rate, whatever `ix` holds)
     terminates without undefined behaviour, writes only symbols inside their iCDF tables (no `celt_assert`), and the decoder
